@@ -1,7 +1,7 @@
 """check configuration for C13"""
 
 CFG = {'module': 'Dnp3.Props.C13',
- 'gen': [],
+ 'gen': ['DbTypes.lean'],
  'engines': ['outstation', 'outstationdb', 'db'],
  'monitors': ['restart_bit_interval',
               'app_bits_mirror',
@@ -17,14 +17,18 @@ CFG = {'module': 'Dnp3.Props.C13',
          'sizes 249..2048, unsolicited on/off, retry limits none/0/1/3, any-master, broadcast, max-controls. '
          'Each history runs the real task and the model; monitors evaluate the property predicates on the '
          "implementation's trace with an independent decoder. engine outstationdb: the same session grammar "
-         'over a populated database (binary and analog points in classes 0-3, event buffers of 1-20 per '
-         'type, big databases forcing multi-fragment READ series), update transactions interleaved at every '
-         'point, READs by class / type / range / variation / count, unsolicited series, confirms right / '
-         'wrong / late / missing, timeouts, aborting requests, ENABLE/DISABLE_UNSOLICITED, disconnects; an '
-         'event ledger (recorded / carried / released) and a mirrored reference database are kept by the '
-         'monitors. engine db: operation sequences straight on the real Database (add / update / select by '
-         'every READ header form / write_response_headers at capacities 0..2048 / write_unsolicited / '
-         'clear_written_events / reset), compared with the Lean database model; ',
+         'over a populated database (points of any mix of the eight point types - binary / double-bit / '
+         'binary output status / counter / frozen counter / analog / analog output status / octet string - '
+         'in classes 0-3, per-type event capacities 0-250, equal or each type its own, dead-bands, '
+         'class-zero configurations, big databases forcing multi-fragment READ series), update transactions '
+         'interleaved at every point, READs by class / type / range / variation / count, unsolicited series, '
+         'confirms right / wrong / late / missing, timeouts, aborting requests, ENABLE/DISABLE_UNSOLICITED, '
+         'disconnects; an event ledger (recorded / carried / released) and a mirrored reference database are '
+         'kept by the monitors. engine db: operation sequences straight on the real Database over all eight '
+         'point types (add with configured static / event variation and dead-band / update with every '
+         "UpdateOptions / select by every READ header form the library's ReadHeader::from_* tables accept / "
+         'write_response_headers at capacities 0..2048 / write_unsolicited / clear_written_events / reset; '
+         'per-type event capacities; dead-band drift histories), compared with the Lean database model; ',
  'trusted_base': ['hand-written Lean model of outstation/session.rs (+ control/select.rs, '
                   'control/collection.rs, deferred.rs, transport/reader.rs pop_request) tied by differential '
                   'execution of the REAL OutstationTask (real link layer, transport, parser, session, '
@@ -32,12 +36,17 @@ CFG = {'module': 'Dnp3.Props.C13',
                   'application / control-handler callbacks are scripted identically on both sides',
                   'hand-written Lean model of outstation/database/** (event buffer, static database, '
                   'response writers) tied by differential execution of the real Database (engine db) and of '
-                  'the real OutstationTask (engine outstationdb)'],
+                  'the real OutstationTask (engine outstationdb)',
+                  'generated per-type tables Gen/DbTypes.lean (point types, Insertable slots, is_any_full / '
+                  'max_events lists, ReadHeader::from_* arms, Updatable accessors, static / event variation '
+                  'tables) re-extracted from outstation/database/** on every run; their well-formedness is '
+                  'proved (Props.Db §Tables)'],
  'assumptions': ['tokio timer and Notify semantics; xxh64 collision-free on compared fragments (model '
                  'compares octets)'],
  'level_text': 'Lean theorems for all states / histories: session model (exact IIN formula of every fresh '
-               'response; restart, broadcast and application bits; an unsolicited confirm clears the broadcast '
-               'record only if the confirmed response reported it: D16 repaired) and database model (class bits = an '
+               'response; restart, broadcast and application bits; an unsolicited confirm clears the '
+               'broadcast record only if the confirmed response reported it: D16 repaired) and database '
+               'model, all eight point types (is_any_full asks every type exactly once; class bits = an '
                'unwritten event of the class is buffered and the counter subtraction never underflows, for '
                'every operation sequence from a fresh database and per operation (D3 repaired: regression '
                'corpus db_D3); overflow bit interval); tie: correspondence of the real task and the real '
